@@ -742,6 +742,29 @@ def window_history(rng):
     return g.ops
 
 
+def traces_history(rng):
+    """C06: transaction traces of the three kinds (regular, force-persisted, synthetics - and traces that are both
+    force-persisted and synthetics), more of each than its pool holds, in any order; the payload keeps the longest of each kind"""
+    g = Gen(rng, napps=1, profile="allok", timeout=0)
+    g.ops.append("proc defapp k1 lic=LIC1 name=app1 redirect=- lang=php ver=1.1 host=h1 dt=0 span=10000 log=10000 custom=30000 docker=-")
+    g.apps.append("k1")
+    g.ops.append("proc app k1 run=-")
+    g.ops.append("proc reply k1 preconnect 0 200 host=coll-k1.example")
+    run = "r1www"
+    g.ops.append("proc reply k1 connect 0 200 run=%s rp=- ee=- ae=- ce=- se=- le=- srp=- sl=- rules=- hdr=-" % run)
+    for period in range(rng.randint(1, 2)):
+        kinds = ["reg"] * rng.randint(0, 4) + ["force"] * rng.randint(8, 14) + ["syn"] * rng.randint(0, 24) + ["both"] * rng.randint(0, 6)
+        rng.shuffle(kinds)
+        durs = rng.sample(range(1, 5000), len(kinds))
+        for kind, d in zip(kinds, durs):
+            g.ops.append("proc txn %s name=t1 pid=1 prio=%d%s tr=%d:%d:%d" % (
+                run, rng.randrange(1000000), " syn=1" if kind in ("syn", "both") else "", d, g.fresh()[0], 1 if kind in ("force", "both") else 0))
+        g.ops.append("proc trigger %s %d" % (run, DEFAULT))
+        g.drain(run, "200")
+    g.ops.append("proc cleanexit default=200")
+    return g.ops
+
+
 def rule_change_history(rng):
     """C07: the rename rules are those of the run's own connect reply.  An application connects with one rule list, reports
     metrics, is restarted by the collector at a harvest (409) and reconnects with another rule list (or none); possibly again"""
